@@ -128,7 +128,12 @@ def parse_criteria(criteria):
     val = match.group('val')
     if op:
         val = to_number(val)
+        different = op == '<>'
         op = OPERATOR_DICT[op]
+        if isinstance(val, number_types) and not different:
+            # a comparison with a number holds for numbers only: a text cell (a header above the
+            # column), a logical or a blank is not selected - comparing it would raise TypeError
+            return lambda a: isinstance(a, number_types) and not isinstance(a, bool) and op(a, val)
         return lambda a: op(a, val)
     else:
         if any(c in val for c in ('?', '*')):
@@ -136,7 +141,10 @@ def parse_criteria(criteria):
             pattern = val.replace('[', '[[]')
             return lambda a: isinstance(a, string_types) and fnmatch.fnmatch(a, pattern)
         else:
-            return lambda a: a == to_number(val)
+            val = to_number(val)
+            if isinstance(val, number_types):
+                return lambda a: isinstance(a, number_types) and not isinstance(a, bool) and a == val
+            return lambda a: a == val
 
 
 def any_is_error(iterable):
